@@ -175,25 +175,66 @@ func CheckOp(c *Ctx, req mon.OpReq, exp Expect, viaModel bool, mo mon.ModelOpts,
 			}
 		}
 		if len(warm) > 0 {
-			or := mon.RunOpReused(req, warm)
+			or, _, stale := mon.RunOpReused(req, warm)
 			c.Eval(1)
 			c.Count("reused-instance-calls", 1)
 			if v := Judge(exp, or); !v.OK {
 				ok = false
 				report(c, fmt.Sprintf("api, operator instance already applied to %d other input list(s), first %s", len(warm), trunc(describeInputs(warm[0]), 200)), req, exp, or, v, known)
+			} else if stale != "" {
+				ok = false
+				c.Violation(req.Op+":earlier-result-overwritten", "[api, one operator instance applied several times] %s | request: %s", stale, trunc(req.Describe(), 500))
 			}
+		}
+	}
+	if c.Idx%8 == 1 && ok && len(req.Attrs) > 1 {
+		// the attributes of a node are a set: the same request with its attribute list in
+		// another order (reversed or rotated)
+		shuffled := req
+		shuffled.Attrs = append([]*mon.Attr{}, req.Attrs...)
+		if n := len(shuffled.Attrs); c.R.Bool() || n == 2 {
+			for i, j := 0, n-1; i < j; i, j = i+1, j-1 {
+				shuffled.Attrs[i], shuffled.Attrs[j] = shuffled.Attrs[j], shuffled.Attrs[i]
+			}
+		} else {
+			k := c.R.Range(1, n-1)
+			shuffled.Attrs = append(shuffled.Attrs[k:], shuffled.Attrs[:k]...)
+		}
+		os, _ := mon.RunOpAPI(shuffled)
+		c.Eval(1)
+		c.Count("attribute-order-variants", 1)
+		if v := Judge(exp, os); !v.OK {
+			ok = false
+			report(c, "api, attribute list in another order", shuffled, exp, os, v, known)
 		}
 	}
 	if c.Idx%8 == 5 && ok {
 		// the same instance and the same tensor objects, whose contents the caller has
 		// overwritten in place since the previous call
-		if ou, ran := mon.RunOpUpdatedInPlace(req); ran {
+		if ou, ran, stale := mon.RunOpUpdatedInPlace(req); ran {
 			c.Eval(1)
 			c.Count("operands-updated-in-place-calls", 1)
 			if v := Judge(exp, ou); !v.OK {
 				ok = false
 				report(c, "api, second call on the same operator instance and tensor objects after the operands' contents were overwritten in place", req, exp, ou, v, known)
+			} else if stale != "" {
+				ok = false
+				c.Violation(req.Op+":earlier-result-overwritten", "[api, one operator instance applied twice to operands of the same shapes] %s | request: %s", stale, trunc(req.Describe(), 500))
 			}
+		}
+	}
+	if viaModel && hasAbsentInput(req) && !mo.Truncate {
+		// the same single-node model behind a node that OMITS one of its outputs ("" among
+		// its output names): the skipped inputs of the node under test are written "" too
+		// and must still reach the operator as absent
+		g, feed := mon.BuildOpModel(req, mo)
+		addOmittedOutputUpstream(g)
+		ou := mon.RunGraph(g, feed)
+		c.Eval(1)
+		c.Count("models-behind-an-omitted-output", 1)
+		if v := Judge(exp, ou); !v.OK {
+			ok = false
+			report(c, "model, behind a node with an omitted output", req, exp, ou, v, known)
 		}
 	}
 	if viaModel {
@@ -293,4 +334,32 @@ func describeInputs(ins []*ref.T) string {
 		s += t.String()
 	}
 	return s
+}
+
+func hasAbsentInput(r mon.OpReq) bool {
+	for _, in := range r.Inputs {
+		if in == nil {
+			return true
+		}
+	}
+	return false
+}
+
+// addOmittedOutputUpstream prepends a small GRU node whose first output (Y) is
+// omitted; its Y_h is not a graph output (a dead value), so the outputs of the
+// graph stay those of the node under test.
+func addOmittedOutputUpstream(g *mon.Graph) {
+	const H = 2
+	x := ref.FromF(ref.F32, []int{2, 1, 3}, []float64{0.5, -1, 0.25, 1, 0.75, -0.5})
+	w := ref.New(ref.F32, 1, 3*H, 3)
+	rr := ref.New(ref.F32, 1, 3*H, H)
+	for i := range w.Bits {
+		w.Bits[i] = ref.EncF(ref.F32, float64(i%5-2)/8)
+	}
+	for i := range rr.Bits {
+		rr.Bits[i] = ref.EncF(ref.F32, float64(i%3-1)/4)
+	}
+	g.Inits = append(g.Inits, mon.GInit{Name: "up_x", T: x}, mon.GInit{Name: "up_w", T: w}, mon.GInit{Name: "up_r", T: rr})
+	up := mon.GNode{Op: "GRU", Name: "upstream", Inputs: []string{"up_x", "up_w", "up_r"}, Outputs: []string{"", "up_h"}, Attrs: []*mon.Attr{mon.AttrI("hidden_size", H)}}
+	g.Nodes = append([]mon.GNode{up}, g.Nodes...)
 }
